@@ -375,6 +375,18 @@ def handler_state_rule(ctx: Ctx, chk, rule: str = "HANDLER-STATE-1") -> None:
                     chk.ok(rule, key, "no store on the class / instance, no memoisation", f.where, sample=False)
                 else:
                     chk.refute(rule, key, f"{f.qualname} {bad[1]}: the handler classes are shared by all protocol versions (inheritance) and all gateways, so what is remembered under one version is used under another", ctx.loc(f, bad[0]))
+    # module-level helpers of the handler modules: a memoised function is the same kind of shared state. Members of
+    # different IntEnums are equal and hash alike when their numbers are (Internal(0) == Stream(0) == 0), so a cache
+    # keyed by an enum member hands the answer computed for one table to the lookups of another
+    mods = {c.module for c in classes}
+    for m in mods:
+        for f in ctx.prog.all_functions():
+            if f.module is not m or f.cls is not None or f.parent is not None:
+                continue
+            for d in f.decorator_names:
+                if d.split("(")[0].rsplit(".", 1)[-1] in ("cache", "lru_cache", "alru_cache"):
+                    chk.instance(rule)
+                    chk.refute(rule, f"{f.fq}::memoised-helper", f"{f.qualname} in a handler module is memoised by @{d}: its cache is shared by all protocol versions and gateways, and keys that are enum members collide across the Internal / Stream / SetReq / Presentation tables (equal numbers are equal keys) - a handler name computed for one table is returned for another", f.where)
     chk.floor(rule, "handler class attributes and methods", n, 25)
 
 
